@@ -4,10 +4,10 @@ package interp
 
 import (
 	"fmt"
-	"os"
-	"runtime/debug"
 	"go/token"
 	"go/types"
+	"os"
+	"runtime/debug"
 	"strings"
 )
 
